@@ -17,7 +17,7 @@ theorem C02_find (P : List (List α)) (sk : StartKind) (i : Input α)
          IsFind .std P i.hay i.s i.e i.anch r := by
   cases hd : i.isDone with
   | true =>
-    refine ⟨none, by simp [tryFindFwd, hd], ?_⟩
+    refine ⟨none, by simp [tryFindFwd, hd, ideal_start P h], ?_⟩
     rintro m ⟨⟨p, _, h1, h2, h3, _⟩, _⟩
     simp only [Input.isDone, decide_eq_true_eq] at hd
     omega
